@@ -243,6 +243,24 @@ def run(ctx):
                               dict(samples=as_list(ds['samples'])))
             except ValueError:
                 pass
+        # ALF names: the stored SECONDS go backwards by less than one sample period (both spikes round to the
+        # same sample): still non-monotonic spike times
+        for k in range(8):
+            ds = D.random_dense(rng, ns=10, nt=2, nc=3, nsw=2, rate=1024)
+            j = int(rng.randint(1, 10))
+            jit = np.zeros(10)
+            ds['samples'][j] = ds['samples'][j - 1]          # two spikes on the same sample ...
+            jit[j - 1], jit[j] = 0.25, -0.25                 # ... stored a quarter of a sample apart, in the wrong order
+            shutil.rmtree(d / 'nm', ignore_errors=True)
+            p = D.write_dataset(d / 'nm', ds, naming='alf', alf_jitter=jit, alf_samples=bool(k % 2))
+            ctx.traces += 1
+            try:
+                m = D.load(p)
+                m.close()
+                ctx.violation('monotonic', 'ALF spike times going backwards by half a sample period were accepted',
+                              dict(samples=as_list(ds['samples']), jitter=as_list(jit)))
+            except ValueError:
+                pass
 
 
 def replay(ctx, doc):
